@@ -3,6 +3,7 @@ CONSTANTS Record = FALSE
           MaxLen = 4
           MaxStack = 2
           Rich = FALSE
+          GH = TRUE
 CONSTRAINT Bound
 INVARIANT InvTypeOK
 PROPERTY SiblingsKept
